@@ -156,6 +156,12 @@ def py_dump(snap, mx, parents, n_inv, tree_best):
         # grouping is compared through `me` (number of metaepochs) and the flat generation list
         line += " hist " + " ; ".join(inds_tok(g) for g in d["hist"])
         out.append(line)
+    rep = snap.get("report")
+    if rep is None or "raised" in rep:
+        out.append("R ?")
+    else:
+        ls = " ".join(f"{i}:{CLS_TOK.get(c, c)}:{e}:{m}" for i, c, e, m in rep["lines"])
+        out.append(f"R {rep['metaepoch']} {rep['evals']} {rep['demes']} levels {' '.join(rep['levels'])} lines {ls}")
     return " | ".join(out)
 
 
@@ -402,7 +408,7 @@ RELEVANT = {
     "C12": {"elitism", "size"},
     "C15": {"stage:NBC_Generator", "stage:NBCGeneratorWithLocalMethod"},
     "C18": {"hib", "schedule", "sprout"},
-    "C20": {"best", "evals", "counter"},
+    "C20": {"best", "evals", "counter", "report:metaepoch", "report:evals", "report:demes", "report:levels", "report:cls", "report:line-evals", "report:marker", "report:displayed"},
 }
 
 
@@ -431,6 +437,24 @@ def dump_fields(line):
             out[(did, "cls")] = me[4]
             out[(did, "best")] = seg[c + 6 : d]
             out[(did, "hist")] = seg[d + 6 :]
+        elif tk[0] == "R":
+            if len(tk) > 1 and tk[1] == "?":
+                out[("R", "skip")] = "1"
+                continue
+            out[("R", "report:metaepoch")] = tk[1]
+            out[("R", "report:evals")] = tk[2]
+            out[("R", "report:demes")] = tk[3]
+            a, b = seg.index(" levels "), seg.index(" lines ")
+            out[("R", "report:levels")] = seg[a + 8 : b]
+            for ln in seg[b + 7 :].split(" "):
+                if not ln:
+                    continue
+                f = ln.split(":")
+                if len(f) == 4:
+                    out[(f[0], "report:cls")] = f[1]
+                    out[(f[0], "report:line-evals")] = f[2]
+                    out[(f[0], "report:marker")] = f[3]
+            out[("R", "report:displayed")] = " ".join(ln.split(":")[0] for ln in seg[b + 7 :].split(" ") if ln)
     return out
 
 
@@ -457,6 +481,9 @@ def compare(lines, expect, kinds, got, stage_classes=None):
             continue
         if k.startswith("dump"):
             fa, fb = dump_fields(norm_model_dump(g)), dump_fields(e)
+            if ("R", "skip") in fb:  # the real summary() raised (no individual anywhere yet): no report to compare
+                fa = {kk: vv for kk, vv in fa.items() if not kk[1].startswith("report:")}
+                fb.pop(("R", "skip"))
             seen = set()
             for key in sorted(set(fa) | set(fb)):
                 if fa.get(key) != fb.get(key) and key[1] not in seen:
